@@ -31,6 +31,9 @@ type genResp struct {
 	Declared []string
 	Trailers []hfield
 	Head     bool
+	// HeadDelay: the backend thinks this long before it sends its status line
+	HeadDelay time.Duration
+	BigTrailers bool
 }
 
 func (g *genResp) bodyless() bool { return g.Head || g.Status == 204 || g.Status == 304 }
@@ -56,6 +59,9 @@ func genResponse(t *sim.Tape, thorough bool) *genResp {
 		g.Status = []int{204, 304}[t.Choice(2, "bodyless")]
 	}
 	g.Head = t.Rare(1, 10, "head")
+	if t.Rare(1, 12, "slowhead") {
+		g.HeadDelay = 32 * time.Second
+	}
 	n1 := t.Pick("interim", 6, 2, 1)
 	for i := 0; i < n1; i++ {
 		it := interim{Code: []int{103, 102, 100, 199}[t.Choice(4, "1xx")]}
@@ -118,6 +124,17 @@ func genResponse(t *sim.Tape, thorough bool) *genResp {
 			if t.Rare(1, 4, "undeclared") {
 				g.Trailers = append(g.Trailers, hfield{"X-Undeclared", "u1"})
 			}
+			if t.Rare(1, 10, "bigtrailers") {
+				// a trailer section of a few kilobytes (many fields, or two long ones)
+				if t.Choice(2, "bigtrailerkind") == 0 {
+					for i := 0; i < 30; i++ {
+						g.Trailers = append(g.Trailers, hfield{fmt.Sprintf("X-Many-%02d", i), strings.Repeat("v", 50)})
+					}
+				} else {
+					g.Trailers = append(g.Trailers, hfield{"X-Long-A", strings.Repeat("a", 1400)}, hfield{"X-Long-B", strings.Repeat("b", 1400)})
+				}
+				g.BigTrailers = true
+			}
 		}
 	}
 	return g
@@ -146,6 +163,9 @@ func (g *genResp) write(c net.Conn, declaredStyle int) {
 		if g.Pause > 0 {
 			time.Sleep(g.Pause)
 		}
+	}
+	if g.HeadDelay > 0 {
+		time.Sleep(g.HeadDelay)
 	}
 	fmt.Fprintf(&b, "HTTP/1.1 %d Whatever Reason\r\n", g.Status)
 	for _, f := range g.Fields {
@@ -329,6 +349,12 @@ func checkC03(w *World, resps []*genResp, results []c03Result) {
 		if len(g.Interim) > 0 {
 			interimNote = " (final response preceded by 1xx interim responses)"
 			w.Probe("interim_1xx")
+		}
+		if g.HeadDelay > 0 {
+			w.Probe("response_head_after_half_a_minute")
+		}
+		if g.BigTrailers {
+			w.Probe("trailer_section_of_several_kilobytes")
 		}
 		if code != g.Status {
 			w.Violation("status", "client received a different final status code%s | backend %d client %d", interimNote, g.Status, code)
